@@ -1,6 +1,6 @@
 #!/bin/bash
 # re-validates every seeded mutant against the current /repo: patch applies, the property's quick check reports a VIOLATION; writes seeded/STATUS.txt
-cd /verif
+cd "$(dirname "$(readlink -f "$0")")/.."
 out=seeded/STATUS.txt; : > $out
 for d in seeded/*/; do
   id=$(basename $d); prop=${id%%-*}
